@@ -155,7 +155,13 @@ contract(f"{C}::Calibrator.calibrate", params={"n_batches": "int"}, returns="tup
              f"implies({_M} < n_batches, ghost.conv_seen)",
              # stops early only at a batch after which the smallest recorded loss rounds to zero ...
              f"implies({_M} < n_batches, self.convergence_precision is not None and {_CONV})",
-             # (... and "immediately, not before": loop invariant `not converged at any earlier batch`, below)
+             # (... and "immediately, not before": loop invariant `not converged at any earlier batch`, below - and, as
+             #  a post-condition that the replay on the real code can evaluate: when this call ran two batches or more,
+             #  the history as it stood BEFORE the last batch had not converged)
+             f"implies(self.convergence_precision is not None and {_M} >= 2, "
+             "forall(range(0, self.n_sampled_params), lambda i: implies(self.batch_num_samp[i] < self.current_batch_index - 1 and "
+             "forall(range(0, self.n_sampled_params), lambda j: implies(self.batch_num_samp[j] < self.current_batch_index - 1, "
+             "self.losses_samp[i] <= self.losses_samp[j])), np_round(self.losses_samp[i], self.convergence_precision) != 0)))",
              # the triggering batch is in the checkpoint: the last checkpoint write saw the final counters
              f"implies(self.saving_folder is not None and {_M} >= 1, ghost.saved_index == self.current_batch_index "
              "and ghost.saved_n == self.n_sampled_params)",
@@ -194,6 +200,11 @@ loop_invariant(f"{C}::Calibrator.calibrate", 1, over="range(n_batches)", var="b"
                    "not ghost.conv_seen",
                    # C14 "immediately": a further batch is started only if the history so far has NOT converged
                    f"implies(self.convergence_precision is not None and b >= 1, {_NOTCONV})",
+                   # (the same fact one batch back - it is what the post-condition "not before" states about the last batch)
+                   "implies(self.convergence_precision is not None and b >= 2, "
+                   "forall(range(0, self.n_sampled_params), lambda i: implies(self.batch_num_samp[i] < self.current_batch_index - 1 and "
+                   "forall(range(0, self.n_sampled_params), lambda j: implies(self.batch_num_samp[j] < self.current_batch_index - 1, "
+                   "self.losses_samp[i] <= self.losses_samp[j])), np_round(self.losses_samp[i], self.convergence_precision) != 0)))",
                    "implies(self.saving_folder is not None and b >= 1, ghost.saved_index == self.current_batch_index "
                    "and ghost.saved_n == self.n_sampled_params)",
                    "implies(self.saving_folder is not None and b >= 1, ghost.saved_sched_updates == ghost.sched_updates)",
